@@ -56,6 +56,7 @@ const (
 	LFieldElem                // element of an array-typed field
 	LLocal                    // local cell
 	LGlobal                   // package-level variable
+	LSlot                     // symbolic **Node parameter: either the Root field of a tree or a Children[i] slot of a node
 )
 
 type Loc struct {
@@ -68,6 +69,11 @@ type Loc struct {
 	Local *ssa.Alloc   // LLocal
 	Name  string       // LGlobal
 	T     types.Type   // pointee type (resolved)
+	// LSlot: IsRoot ? (TreeOwner, Ref).Root : (Owner, NodeRef).<array field Path[0]>[Idx]
+	IsRoot    string
+	NodeRef   string
+	TreeOwner *types.Named
+	RootPath  int
 }
 
 type SeqV struct {
